@@ -235,7 +235,12 @@ def percolate_space(
 
     percolated = Percolation.percolate_subspace(network, space)
     result: BooleanSpace = {}
-    for var, value in percolated.items():
+    # The dictionary returned by AEON has no fixed iteration order (it can
+    # differ from call to call), and the key order of the resulting space is
+    # observable: it decides e.g. the order in which the variables of a stable
+    # motif are considered during attractor detection. Use the variable order
+    # of the network to keep the results reproducible.
+    for var, value in sorted(percolated.items(), key=lambda item: int(item[0])):
         var_name = network.get_network_variable_name(var)
         result[var_name] = cast(Literal[0, 1], int(value))
     return result
